@@ -1,6 +1,7 @@
 package values
 
 import (
+	"math"
 	"reflect"
 )
 
@@ -15,6 +16,29 @@ func IsFalsy(value any) bool {
 	}
 	r := reflect.ValueOf(value)
 	return r.Kind() == reflect.Bool && !r.Bool()
+}
+
+// AsInt returns the value as an int when it is an integer of any width or signedness (or of a named
+// integer type) that an int can hold.
+func AsInt(value any) (int, bool) {
+	switch v := value.(type) {
+	case int:
+		return v, true
+	case nil:
+		return 0, false
+	}
+	r := reflect.ValueOf(value)
+	switch r.Kind() {
+	case reflect.Int, reflect.Int8, reflect.Int16, reflect.Int32, reflect.Int64:
+		if n := r.Int(); int64(int(n)) == n {
+			return int(n), true
+		}
+	case reflect.Uint, reflect.Uint8, reflect.Uint16, reflect.Uint32, reflect.Uint64, reflect.Uintptr:
+		if n := r.Uint(); n <= uint64(math.MaxInt) {
+			return int(n), true
+		}
+	}
+	return 0, false
 }
 
 // IsEmpty returns a bool indicating whether the value is empty according to Liquid semantics.
